@@ -498,3 +498,32 @@ Proof.
           InstEndSite.html_eat_patterns_no_gt)).
 Qed.
 Print Assumptions C04_html_site4_condition_is_false_on_the_pinned_tables.
+
+(* ------------------------------------------------------------------------------------------------------------
+   EXACTLY ONE EOF in the REAL default configuration (exact_errors = false, chunked BufferQueue, bulk reads, SIMD scan;
+   Inst/InstEofDefault.v): the number of EOF tokens is a function of the observation of the default-mode simulation
+   (errors erased, character runs merged, EOF tokens untouched), so the theorem above transports; the fuel bound of the
+   termination theorem discharges the simulation's regularity hypothesis.  [eofc] counts the EOF tokens of an output list. *)
+From HV Require Inst.InstEofDefault.
+
+Theorem C04_html_default_mode_exactly_one_eof :
+  forall ent c1 sk fuel inj chunks s0 last,
+  (html_fuel (length (concat chunks) + length chunks * (50 * length inj)) <= fuel)%nat -> (4 <= fuel)%nat ->
+  let fast := drive_chunked html_flavour false html_table InstBulk.html_simd ent c1 sk fuel inj chunks
+                            (mkmach (init_cfg s0 last false) [] [] 0%N) [] in
+  hd (SPanic 0) (snd fast) = SSuspend -> eofc (mout (fst fast)) = 1%nat.
+Proof. exact InstEofDefault.html_default_mode_exactly_one_eof. Qed.
+Print Assumptions C04_html_default_mode_exactly_one_eof.
+
+Theorem C04_xml_default_mode_exactly_one_eof :
+  forall simd ent c1 sk fuel inj chunks s0 last,
+  (InstTermX.xml_fuel (length (concat chunks) + length chunks * (50 * length inj)) <= fuel)%nat -> (4 <= fuel)%nat ->
+  let fast := drive_chunked xml_flavour false xml_table simd ent c1 sk fuel inj chunks
+                            (mkmach (init_cfg s0 last false) [] [] 0%N) [] in
+  hd (SPanic 0) (snd fast) = SSuspend -> eofc (mout (fst fast)) = 1%nat.
+Proof. exact InstEofDefault.xml_default_mode_exactly_one_eof. Qed.
+Print Assumptions C04_xml_default_mode_exactly_one_eof.
+
+Theorem C04_eof_count_is_a_function_of_the_observation : forall o, eofc (BulkSim.obs o) = eofc o.
+Proof. exact InstEofDefault.eofc_obs. Qed.
+Print Assumptions C04_eof_count_is_a_function_of_the_observation.
